@@ -118,6 +118,9 @@ _forced_closed = set(x for x in os.environ.get('TXSIM_CLOSE_GATES', '').split(',
 # reach probes that sit behind a gate are expected only when that gate is not force-closed
 PROBES = {'C20': _BASE_PROBES + [p for g, p in sorted(GATES.items()) if g not in _forced_closed]}
 
+# reach probes of the "long-lived application" runs (DESIGN section 12.1), tracked like the others
+PROBES['C20'] = list(PROBES['C20']) + ['more-than-200-updates']
+
 EPOCH = _dt.datetime(2024, 2, 20, 21, 30, 0)      # virtual second 0 (UTC); offsets cross a leap day
 FMT = '%Y-%m-%d %H:%M:%S'
 DAY = 86400
